@@ -7,7 +7,7 @@ U(c) all strings up to length 3 over 24 awkward characters; every single
 U(d) nesting (parentheses, not, unary minus, accessor chains, quantifiers, sets,
      disjunction width) up to depth 50
 U(e) explicit-state exploration of call histories on ONE parser object per entry
-     point: every sequence of <= 3 (4) calls over a 14-text pool; the outcome of
+     point: every sequence of <= 3 (4) calls over a 18/19-text pool; the outcome of
      the last call must equal the outcome on a fresh parser.
 Oracle: each call terminates (watchdog) and returns an AST or raises exactly
 HplSyntaxError / HplSanityError / TypeError / ValueError-for-unknown-function.
@@ -115,15 +115,17 @@ HISTORY_POOL = {
         'globally: no a', '# id: p1 globally: some b {x > 1} within 100 ms', '# id: p2 # title: "t" after a as A: b {x = @A.x} causes c', 'globally: no a {',
         'globally: no a {x and 1}', 'globally: no a {@Z.x > 1}', 'globally: no a {foo(x) > 1}', '# id: d # id: d globally: no a', '# title: "only title" until e: b requires c',
         'globally: no (a or a)', '# id: q', '', 'globally: no a {forall i in xs: p}', 'after a until b: (c or d as D) forbids e within 2 s',
+        '# title: "a" # title: "b" globally: no a', 'globally: no a {x = 1.0} within 1.0 s', 'globally: no a {x = 1} within 1 s', 'globally: no a {x = 1e0 and y = 10}', 'globally: no a {y = 1e1}',
     ],
     'spec': [
         'globally: no a', '# id: p1 globally: some b # id: p2 globally: no c', '# id: p1 globally: some b globally: no c', 'globally: no a {', '# id: d # id: d globally: no a',
         'globally: no a {x and 1}', '# id: z globally: no a {@Z.x > 1}', '', '# id: q', '# title: "t" globally: no a # description: "d" globally: no b',
         'globally: no a {foo(x) > 1}', '# id: last globally: no a # id: dangling', 'until e: b requires c within 1 s', 'globally: no (a or a)',
+        '# description: "a" # description: "a" globally: no a', 'globally: no a {x = 1.0}', 'globally: no a {x = 1}', 'globally: no a {x = 10} globally: no b {x = 1e1}',
     ],
-    'pred': ['{x > 1}', '{x', '{x and 1}', '{foo(x) > 1}', '{True}', '{forall i in xs: p}', '{p}', '{x > 1} }', '', '{@A.x = x}', '{not False}', '{x in {1,2}}', '{1 +}', '{len(xs) > 0}'],
-    'expr': ['x > 1', 'x >', 'x and 1', 'foo(x)', 'True', 'forall i in xs: p', 'p', ')', '', '@A.x = x', 'not False', 'x in {1,2}', '1 +', 'len(xs)'],
-    'cond': ['x > 1', 'x >', 'x and 1', 'foo(x)', 'True', 'forall i in xs: p', 'p', ')', '', '@A.x = x', 'False', 'x + 1', '1 +', 'len(xs) > 0'],
+    'pred': ['{x = 1.0}', '{x = 1}', '{x = 1e0 or y = 2.50}', '{y = 2.5}', '{x > 1}', '{x', '{x and 1}', '{foo(x) > 1}', '{True}', '{forall i in xs: p}', '{p}', '{x > 1} }', '', '{@A.x = x}', '{not False}', '{x in {1,2}}', '{1 +}', '{len(xs) > 0}'],
+    'expr': ['x = 1.0', 'x = 1', 'x = 1e0 or y = 2.50', 'y = 2.5', 'x > 1', 'x >', 'x and 1', 'foo(x)', 'True', 'forall i in xs: p', 'p', ')', '', '@A.x = x', 'not False', 'x in {1,2}', '1 +', 'len(xs)'],
+    'cond': ['x = 1.0', 'x = 1', 'x = 1e0 or y = 2.50', 'y = 2.5', 'x > 1', 'x >', 'x and 1', 'foo(x)', 'True', 'forall i in xs: p', 'p', ')', '', '@A.x = x', 'False', 'x + 1', '1 +', 'len(xs) > 0'],
 }
 
 
@@ -260,7 +262,7 @@ def replay(w):
 def describe(tier):
     b = bounds(tier)
     return {
-        'rule': f"(a) all token sequences of length <= {b['seq_len_full']} over a {len(ALPHABET)}-token alphabet and <= {b['seq_len_core']} over a core alphabet, 5 entry points; (b) all single{' and double' if b['double_edits'] else ''} token edits of a {sum(len(v) for v in c01.CORPUS.values())}-text corpus; (c) all strings of length <= {b['chars_len']} over {len(AWKWARD)} awkward characters and every single insertion of each at every position of the corpus; (d) 20 nesting shapes at depths 1..{b['depth']}; (e) every call history of length <= {b['history_len']} over a 14-text pool on one parser object per entry point (5 entry points), last outcome compared with a fresh parser. A transition = one parser call; states (e) = distinct (last two calls, outcome) triples.",
+        'rule': f"(a) all token sequences of length <= {b['seq_len_full']} over a {len(ALPHABET)}-token alphabet and <= {b['seq_len_core']} over a core alphabet, 5 entry points; (b) all single{' and double' if b['double_edits'] else ''} token edits of a {sum(len(v) for v in c01.CORPUS.values())}-text corpus; (c) all strings of length <= {b['chars_len']} over {len(AWKWARD)} awkward characters and every single insertion of each at every position of the corpus; (d) 20 nesting shapes at depths 1..{b['depth']}; (e) every call history of length <= {b['history_len']} over a 18/19-text pool on one parser object per entry point (5 entry points), last outcome compared with a fresh parser. A transition = one parser call; states (e) = distinct (last two calls, outcome) triples.",
         'bounds': b,
         'exhaustive': True,
         'assumptions': ['documented failure classes: HplSyntaxError, HplSanityError, TypeError, ValueError for an unknown function name; watchdog of 10 s per call for termination'],
